@@ -1,6 +1,6 @@
 """Module to parse a serialized trajectory and export it as an object fitted for learning."""
 import logging
-from collections import defaultdict
+from collections import Counter, defaultdict
 from pathlib import Path
 from typing import List, Union, Optional, Dict
 
@@ -118,6 +118,11 @@ class TrajectoryParser:
                 f"Expected - {len(lifted_function.signature)} and received - {len(fluent_signature_items)}"
             )
 
+        repeating_items = {
+            object_name: count
+            for object_name, count in Counter(fluent_signature_items).items()
+            if count > 1
+        }
         if self.problem is None:
             self.logger.debug(
                 "Since we don't know the objects in the problem, we don't need to validate their types."
@@ -126,7 +131,11 @@ class TrajectoryParser:
                 object_name: list(lifted_function.signature.values())[index]
                 for index, object_name in enumerate(fluent_signature_items)
             }
-            return PDDLFunction(name=function_name, signature=fluent_signature)
+            return PDDLFunction(
+                name=function_name,
+                signature=fluent_signature,
+                repeating_variables=repeating_items,
+            )
 
         possible_objects = {**self.problem.objects, **self.partial_domain.constants}
         fluent_signature = {
@@ -138,7 +147,11 @@ class TrajectoryParser:
         ):
             assert grounded_param_type.is_sub_type(lifted_param_type)
 
-        return PDDLFunction(name=function_name, signature=fluent_signature)
+        return PDDLFunction(
+            name=function_name,
+            signature=fluent_signature,
+            repeating_variables=repeating_items,
+        )
 
     def parse_grounded_predicate(
         self, grounded_predicate_ast: List[str], lifted_predicate: Predicate
